@@ -12,8 +12,12 @@ STREAM = "vgmw.ops+vgmsong"
 CHUNK = 40
 CASE_SECONDS = 30
 # realloc growth must be observable: ASan fills every fresh allocation completely with 0xbe
+_ROOT = os.path.dirname(os.path.dirname(os.path.abspath(__file__)))
+TMPDIR = os.path.join(_ROOT, "build", "tmp")
+WAVDIR = os.path.join(_ROOT, "build", "c08_wav")
 ENV = {"ASAN_OPTIONS": "detect_leaks=0:abort_on_error=0:exitcode=99:allocator_may_return_null=0:"
-                       "max_malloc_fill_size=1073741824:malloc_fill_byte=190"}
+                       "max_malloc_fill_size=1073741824:malloc_fill_byte=190",
+       "VERIF_TMPDIR": TMPDIR}
 
 INITIAL_ALLOC = None
 
@@ -244,8 +248,53 @@ MML_SONGS = [
 ]
 
 
-def song_req(flag, fields, mml):
-    return "vgmsong %s %s %s" % (flag, tagtok(fields), mml.encode().hex())
+def song_req(flag, fields, mml, samples=None):
+    r = "vgmsong %s %s %s" % (flag, tagtok(fields), mml.encode().hex())
+    if samples:
+        r += " P," + ",".join(x.hex() for x in samples)
+    return r
+
+
+def write_wav(data8, bits, rate):
+    """a tiny canonical mono WAV under build/c08_wav; returns (path, expected 8-bit unsigned sample bytes)"""
+    import hashlib
+    os.makedirs(WAVDIR, exist_ok=True)
+    if bits == 8:
+        payload = bytes(data8)
+    else:
+        # 16-bit signed: high byte = data8 ^ 0x80, low byte arbitrary but deterministic
+        payload = b"".join(bytes([(37 * i) & 0xff, d ^ 0x80]) for i, d in enumerate(data8))
+    fmt = struct.pack("<HHIIHH", 1, 1, rate, rate * bits // 8, bits // 8, bits)
+    body = b"WAVE" + b"fmt " + struct.pack("<I", len(fmt)) + fmt + b"data" + struct.pack("<I", len(payload)) + payload
+    if len(payload) % 2:
+        body += b"\0"
+    blob = b"RIFF" + struct.pack("<I", len(body)) + body
+    name = os.path.join(WAVDIR, "s%s_%d_%d.wav" % (hashlib.sha1(blob).hexdigest()[:12], bits, rate))
+    if not os.path.exists(name):
+        tmp = name + ".%d.tmp" % os.getpid()
+        with open(tmp, "wb") as f:
+            f.write(blob)
+        os.replace(tmp, name)
+    return name, bytes(data8)
+
+
+def pcm_song(rng, quick):
+    """a song whose F track plays PCM instruments; returns (mml, expected sample byte strings)"""
+    nins = rng.choice([1, 1, 2, 3])
+    lines, samples, ids = [], [], []
+    for i in range(nins):
+        n = rng.choice([1, 2, 3, 17, 64, 255, 256, 257, 1000] if quick else [1, 2, 3, 17, 64, 255, 256, 257, 1000, 4000, 20000])
+        data = [rng.randrange(256) for _ in range(n)]
+        path, exp = write_wav(data, rng.choice([8, 16]), rng.choice([8000, 11025, 17500]))
+        # sample paths are resolved relative to the MML file, which the harness writes to build/tmp
+        lines.append('@%d pcm "../c08_wav/%s"' % (30 + i, os.path.basename(path)))
+        samples.append(exp)
+        ids.append(30 + i)
+    notes = " ".join("@%d %s%d" % (rng.choice(ids), rng.choice("cdefgab") if rng.random() < 0.8 else "r", rng.choice([4, 8, 16])) for _ in range(rng.randrange(1, 12)))
+    body = "F o4 t%d %s%s\n" % (rng.choice([100, 150]), "L " if rng.random() < 0.4 else "", "@%d c8 " % ids[0] + notes)
+    if rng.random() < 0.5:
+        body += "A o4 l8 " + " ".join(rng.choice("cdefgab") for _ in range(rng.randrange(1, 10))) + "\n"
+    return "\n".join(lines) + "\n" + body, samples
 
 
 def cases(rng, tier):
@@ -311,6 +360,10 @@ def cases(rng, tier):
         for tf in ([["-"] * 11, ["-"] * 9 + [hx("prog only"), "-"], [hx("Title"), hx("タイトル"), hx("Game"), "-", hx("Mega Drive"), "-", hx("me"), "-", hx("2020"), hx("prog"), hx("note")]] +
                    ([] if quick else [["300*61"] + ["-"] * 10, ["256*e38182"] * 11])):
             yield Case(song_req(flag, tf, mml), sorted({"song", "loop" if flag == "L" else "no-loop"} | tag_tags(tf)), "song")
+    for i in range(10 if quick else 60):
+        mml, samples = pcm_song(rng, quick)
+        fields = [x if "*" not in x or int(x.split("*")[0]) < 300 else "-" for x in rand_tag_fields(rng)]
+        yield Case(song_req("?", fields, mml, samples), sorted({"song", "pcm-song", "pcm-stream"} | tag_tags(fields)), "song-pcm")
     ns = 12 if quick else 80
     for i in range(ns):
         notes = "cdefgab"
@@ -341,7 +394,7 @@ def finding_key(case, impl, judge):
     j = judge
     for pat, key in ((r"GD3 strings not terminated|GD3 length|GD3 holds|GD3 magic", "gd3-strings"), (r"does not render", "gd3-tag-text"),
                      (r"loop", "loop"), (r"eof offset", "eof"), (r"GD3 offset", "gd3-offset"), (r"total", "sample-total"),
-                     (r"clock", "clock"), (r"stream start outside|length mode", "pcm-stream"), (r"command stream differs|does not parse", "stream"),
+                     (r"clock", "clock"), (r"stream start|length mode", "pcm-stream"), (r"command stream differs|does not parse", "stream"),
                      (r"data block payload", "datablock"), (r"undefined behaviour", "ub"), (r"range_error", "range-error")):
         if re.search(pat, j):
             return key
